@@ -48,7 +48,7 @@ CLASSES = ["std", "odd", "wide", "zero_frac", "full_frac", "over_frac"]
 
 
 def plan(tier):
-    n = 60 if tier == "quick" else 6000
+    n = 2000 if tier == "quick" else 150000
     return [(c, n) for c in CLASSES]
 
 
